@@ -33,6 +33,24 @@ pub fn run(inp: &Input) -> Option<Obs> {
                 Err(err) => err_obs(&err),
             }))
         }
+        // the std tables the model restates (Text.v), enumerated over ALL Unicode scalar values: every scalar for which
+        // char::is_whitespace holds, and the lower-casing of every ASCII scalar and of every scalar whose lower case contains an
+        // ASCII character
+        "std_tables" => {
+            Some(guarded(move || {
+                let mut ws = String::new();
+                let mut rows: Vec<String> = vec![];
+                for u in 0..=0x10FFFFu32 {
+                    if let Some(c) = char::from_u32(u) {
+                        if c.is_whitespace() { ws.push(c); }
+                        let lc: String = c.to_lowercase().collect();
+                        if c.is_ascii() || lc.chars().any(|x| x.is_ascii()) { let mut r = String::new(); r.push(c); r.push_str(&lc); rows.push(r); }
+                    }
+                }
+                let mut out = vec![ws]; out.extend(rows);
+                Obs::Ok(vec![], out)
+            }))
+        }
         "cron_next" => {
             let e = inp.strs[0].clone();
             let i = inp.ints.clone();
@@ -128,6 +146,7 @@ fn mutate(g: &mut Gen, s: &str) -> String {
 pub const SPELLINGS: [&str; 12] = ["*/00 * * * *", "*/000 * * * *", "5,*/00 * * * *", "* * */00 * *", "* * * */0000 *", "* * * * */00", "00 00 01 01 00",
     "*/05 * * * *", "007 * * * *", "*/0255 * * * *", "*/0256 * * * *", "00-059/1 * * * *"];
 pub fn gen_c16(g: &mut Gen, tier: &str) {
+    g.push(true, Input::with_strs("std_tables", vec![], vec![]));
     for f in SPELLINGS { g.push(true, Input::with_strs("cron_parse", vec![], vec![f.to_string()])); }
     let n = if tier == "thorough" { 60_000 } else { 3_000 };
     let fixed = ["* * * * *", "*/5 * * * *", "0 0 * * 0-7", "0 0 * * 5-7", "0 0 * * 7", "0 0 * * 07", "0 0 * * 7-7", "* * * * 1-2-3",
